@@ -54,6 +54,10 @@ def cptQ : Cpt Lcapy.GQ → Cpt Q
   | .TR a b m t => .TR a b m (toQ t)
   | .Y a b y => .Y a b (toQ y)
   | .Open a b => .Open a b
+  | .TPA a b c d m p q r t => .TPA a b c d m (toQ p) (toQ q) (toQ r) (toQ t)
+  | .TPY a b c d p q r t => .TPY a b c d (toQ p) (toQ q) (toQ r) (toQ t)
+  | .SP a b c d m p q r => .SP a b c d m (toQ p) (toQ q) (toQ r)
+  | .HY a b m c d mc p q r => .HY a b m c d mc (toQ p) (toQ q) (toQ r)
 
 def isSrcName (n : String) : Bool := n.startsWith "V" || n.startsWith "I"
 
@@ -142,6 +146,8 @@ def cptNodes : Cpt Q → Nat × Nat
   | .I a b _ => (a, b) | .E a b _ _ _ _ _ => (a, b) | .G a b _ _ _ => (a, b) | .F a b _ _ => (a, b)
   | .H a b _ _ _ => (a, b) | .TF a b _ _ _ _ => (a, b) | .GY a b _ _ _ _ _ => (a, b) | .AM a b _ => (a, b)
   | .TR a b _ _ => (a, b) | .Y a b _ => (a, b) | .Open a b => (a, b)
+  | .TPA a b _ _ _ _ _ _ _ => (a, b) | .TPY a b _ _ _ _ _ _ => (a, b) | .SP a b _ _ _ _ _ _ => (a, b)
+  | .HY a b _ _ _ _ _ _ _ => (a, b)
 
 /-- current through a component from its first to its second node according to the SPEC: the outflow at a
     fictitious first node (the component re-attached between nodes 1 and 2 of a copy of the signals) -/
